@@ -61,11 +61,17 @@ EndItem == [t |-> "end", x |-> 0, f |-> 0]
 ExcItem == [t |-> "exc", x |-> 0, f |-> 0]
 NotRaised == [k |-> "none", i |-> 0]
 RaisedSrc == [k |-> "src", i |-> 0]
+RaisedSub == [k |-> "sub", i |-> 0]
 RaisedErr(i) == [k |-> "err", i |-> i]
 Elems == 1..p.n
 
 \* what the source really yields: p.n elements, or p.srcfail-1 if it fails at pull number p.srcfail
 SrcLen == IF p.srcfail = 0 THEN p.n ELSE p.srcfail - 1
+
+\* how many elements can get an output: the submission function itself (`func`: executor.submit, AsyncServer._enqueue ...)
+\* may raise for element p.subfail (0 = never): like a failing source this ends the stream - after the outputs of all
+\* EARLIER elements - and is never turned into that element's own result
+EffLen == IF p.subfail # 0 THEN p.subfail - 1 ELSE SrcLen
 
 Kind(i) == IF i \in p.fail \/ i \in p.prefail THEN "err" ELSE "ok"
 Expected(k) == [x |-> k, y |-> k, kind |-> Kind(k)]
@@ -77,13 +83,15 @@ Busy == {i \in 1..MaxN : fut[i] \in {"taken", "running"}}
 Params ==
   { c \in [ n : 0..MaxN, cap : 1..MaxCap, conc : 1..MaxConc, retexc : BOOLEAN,
             fail : SUBSET (1..MaxN), prefail : SUBSET (1..MaxN),
-            srcfail : 0..(MaxN+1), srcbase : BOOLEAN, maybreak : BOOLEAN, mode : Modes ] :
+            srcfail : 0..(MaxN+1), srcbase : BOOLEAN, maybreak : BOOLEAN, mode : Modes, subfail : 0..MaxN ] :
       /\ c.fail \subseteq 1..c.n /\ c.prefail \subseteq 1..c.n
       /\ c.fail \cap c.prefail = {}
       /\ Cardinality(c.fail) + Cardinality(c.prefail) <= MaxFail
       /\ c.srcfail <= c.n + 1
       /\ (c.srcfail = 0 => ~c.srcbase)
-      /\ (c.srcfail # 0 => c.n = MaxN) }          \* failing source: keep one length only (symmetry of the grid)
+      /\ (c.srcfail # 0 => c.n = MaxN)            \* failing source: keep one length only (symmetry of the grid)
+      /\ c.subfail <= c.n /\ c.subfail \notin c.prefail      \* a rejected element never reaches `func`
+      /\ (c.subfail # 0 => c.srcfail = 0 /\ c.n = MaxN /\ ~c.maybreak) }
 
 InitWith(c) ==
   /\ p = c
@@ -134,9 +142,15 @@ FeederPreFail ==
   /\ feeder' = "put"
   /\ UNCHANGED <<p, srcPos, held, lastF, q, pendq, wk, calls, cons, cur, val, out, stop, raised, exec>>
 
+\* `func(x)` itself raises: caught by the feeder's outer `except` like a failure of the source
+FeederSubmitRaise ==
+  /\ feeder = "work" /\ held \notin p.prefail /\ held = p.subfail
+  /\ feeder' = "putexc" /\ held' = 0
+  /\ UNCHANGED <<p, srcPos, heldF, lastF, q, fut, pendq, wk, calls, cons, cur, val, out, stop, raised, exec>>
+
 \* `fut = func(x)`  (executor.submit / the user's future factory)
 FeederSubmit ==
-  /\ feeder = "work" /\ held \notin p.prefail
+  /\ feeder = "work" /\ held \notin p.prefail /\ held # p.subfail
   /\ fut' = [fut EXCEPT ![held] = "pending"]
   /\ pendq' = Append(pendq, held)
   /\ heldF' = held /\ lastF' = held
@@ -221,7 +235,8 @@ ConsGet ==
   /\ q' = Tail(q)
   /\ LET z == Head(q) IN
        IF z.t = "end" THEN cons' = "drain" /\ cur' = cur /\ raised' = raised
-       ELSE IF z.t = "exc" THEN cons' = "stopping" /\ cur' = cur /\ raised' = RaisedSrc
+       ELSE IF z.t = "exc" THEN cons' = "stopping" /\ cur' = cur
+                                  /\ raised' = (IF p.subfail # 0 THEN RaisedSub ELSE RaisedSrc)
        ELSE cons' = "await" /\ cur' = [x |-> z.x, f |-> z.f] /\ raised' = raised
   /\ UNCHANGED <<p, srcPos, feeder, held, heldF, lastF, fut, pendq, wk, calls, val, out, stop, exec>>
 
@@ -308,7 +323,7 @@ ExecShutdown ==
 Terminated == cons = "closed" /\ exec = "shut"
 
 Next ==
-  \/ FeederPull \/ FeederSrcEnd \/ FeederSrcRaise \/ FeederCheckStop \/ FeederPreFail \/ FeederSubmit
+  \/ FeederPull \/ FeederSrcEnd \/ FeederSrcRaise \/ FeederCheckStop \/ FeederPreFail \/ FeederSubmit \/ FeederSubmitRaise
   \/ FeederPut \/ FeederPutEnd \/ FeederPutExc
   \/ WorkerTake \/ \E i \in 1..MaxN : (WorkerSetRunning(i) \/ WorkerSkip(i) \/ WorkerStart(i) \/ WorkerFinish(i))
   \/ ConsStart \/ ConsNeverStarted \/ ConsGet \/ ConsAwait \/ ConsYield \/ ConsNext \/ ConsBreak \/ ConsSetStop
@@ -318,7 +333,7 @@ Next ==
 Spec == Init /\ [][Next]_vars
 FairSpec == Spec /\ WF_vars(Next)
            /\ WF_vars(FeederPull \/ FeederSrcEnd \/ FeederSrcRaise \/ FeederCheckStop \/ FeederPreFail
-                      \/ FeederSubmit \/ FeederPut \/ FeederPutEnd \/ FeederPutExc)
+                      \/ FeederSubmit \/ FeederSubmitRaise \/ FeederPut \/ FeederPutEnd \/ FeederPutExc)
            /\ WF_vars(WorkerTake)
            /\ \A i \in 1..MaxN : WF_vars(WorkerSetRunning(i)) /\ WF_vars(WorkerSkip(i))
                                    /\ WF_vars(WorkerStart(i)) /\ WF_vars(WorkerFinish(i))
@@ -344,20 +359,22 @@ OutAppendOnly == [][Len(out') >= Len(out) /\ SubSeq(out', 1, Len(out)) = out]_va
 \* C01: the worker function runs at most once per element and never for a rejected one
 CalledOnce == \A i \in 1..MaxN : calls[i] <= 1 /\ (i \in p.prefail => calls[i] = 0)
 
-FirstBad == IF \E i \in 1..SrcLen : Kind(i) = "err"
-              THEN CHOOSE i \in 1..SrcLen : Kind(i) = "err" /\ \A j \in 1..(i-1) : Kind(j) = "ok"
+FirstBad == IF \E i \in 1..EffLen : Kind(i) = "err"
+              THEN CHOOSE i \in 1..EffLen : Kind(i) = "err" /\ \A j \in 1..(i-1) : Kind(j) = "ok"
               ELSE 0
 
 \* C01 + C05: how a finished iteration may have ended
 \*   normal end        : exactly one output per element of the source
 \*   element failure   : (only without return_exceptions) the FIRST failing element, after all earlier outputs
 \*   source failure    : after an output for every element the source produced
+\*   submission failure: after an output for every element before the one whose submission failed
 \*   early stop        : any prefix
 EndOK ==
   cons = "closed" =>
-    \/ raised.k = "none" /\ Len(out) = SrcLen /\ p.srcfail = 0 /\ (p.retexc \/ FirstBad = 0)
+    \/ raised.k = "none" /\ Len(out) = SrcLen /\ p.srcfail = 0 /\ p.subfail = 0 /\ (p.retexc \/ FirstBad = 0)
     \/ raised.k = "none" /\ p.maybreak
     \/ raised.k = "src" /\ p.srcfail # 0 /\ Len(out) = SrcLen /\ (p.retexc \/ FirstBad = 0)
+    \/ raised.k = "sub" /\ p.subfail # 0 /\ Len(out) = p.subfail - 1 /\ (p.retexc \/ FirstBad = 0)
     \/ /\ raised.k = "err" /\ ~p.retexc
        /\ raised.i = FirstBad /\ Len(out) = FirstBad - 1
 
